@@ -664,6 +664,11 @@ fn spawn_async_ao_list_in_task'''),
         ('descriptor-search-starts-at-62', 'brush-core/src/interp.rs', "    let mut candidate_fd_num = 63;", "    let mut candidate_fd_num = 62;"),
         ('descriptor-search-may-return-zero', 'brush-core/src/interp.rs', "        if candidate_fd_num == 0 {\n            return error::unimp(\"no available file descriptors\");\n        }\n    }\n\n    Ok((candidate_fd_num, target_file))", "        if candidate_fd_num < 0 {\n            return error::unimp(\"no available file descriptors\");\n        }\n    }\n\n    Ok((candidate_fd_num, target_file))"),
     ],
+    'U72': [
+        ('fields-globbed-although-noglob-is-on', 'brush-core/src/expansion.rs', "            if self.disable_pathname_expansion || self.shell.options().disable_filename_globbing {", "            if self.disable_pathname_expansion && self.shell.options().disable_filename_globbing {"),
+        ('a-field-whose-pattern-fails-is-skipped', 'brush-core/src/expansion.rs', "                result.extend(self.expand_pathnames_in_field(field)?);", "                if let Ok(paths) = self.expand_pathnames_in_field(field) {\n                    result.extend(paths);\n                }"),
+        ('words-of-a-field-put-in-front', 'brush-core/src/expansion.rs', "                result.push(String::from(field));\n            } else {", "                result.insert(0, String::from(field));\n            } else {"),
+    ],
     'U71': [
         ('tilde-user-only-when-the-home-directory-exists', 'brush-core/src/sys/unix/users.rs', "    if let Some(user_info) = uzers::get_user_by_name(username) {\n        return Some(user_info.home_dir().to_path_buf());", "    if let Some(user_info) = uzers::get_user_by_name(username)\n        && user_info.home_dir().is_dir()\n    {\n        return Some(user_info.home_dir().to_path_buf());"),
     ],
